@@ -66,7 +66,7 @@ def run(ctx):
 	import gsm_shared
 	f2t = gsm_shared.HoppingParams.fn2gsm_time
 	ctx.rule = ("every FN 0..2715647: real gsm_fn2gsmtime vs counter walk, gsm_gsmtime2fn round trip, firmware running time "
-		"stepped by 1 across the whole hyperframe and the wrap, fresh copies stepped by 1; deltas {2..60,1325,1326,2715647} "
+		"stepped by 1 across the whole hyperframe and the wrap, fresh copies stepped by 1; deltas {0,2..60,102,1325,1326,1327,2652,84864,2715647} "
 		"at every FN; Python fn2gsm_time vs the C table at every "
 		"FN; distinct = distinct FN or (FN, delta) pairs (each is its own case); all non-trivial")
 	bd = cbuild.attach("c19")
@@ -91,6 +91,14 @@ def run(ctx):
 				what = "Python fn2gsm_time(fn) derives other T1/T2/T3 than the C code")
 			if ctx.too_many():
 				break
+		if len(t) > 3:
+			# the fourth component, where the toolkit returns one: TC = (FN div 51) mod 8, as the C code defines it
+			ctx.counters["python_tc_compared"] += 1
+			if t[3] != (fn // 51) % 8:
+				ctx.violation("python-vs-c", {"fn": fn, "python": list(t), "tc_expected": (fn // 51) % 8},
+					what = "Python fn2gsm_time(fn) derives another TC than the C code")
+				if ctx.too_many():
+					break
 		n += 1
 	ctx.count("python_fns_compared", n)
 	ctx.evaluations += n
